@@ -49,7 +49,7 @@ def templates(t, step):
         ("cat-file", "-p", "HEAD"), ("tag", "t%d" % step), ("tag", "-a", "at%d" % step, "-m", "annot"), ("tag", "-l"), ("blame", f), ("blame", "-L", "1,2", f),
         ("clean", "-fd"), ("clean", "-n"), ("notes", "list"), ("notes", "add", "-f", "-m", "usernote", "HEAD"), ("describe", "--always"),
         ("nosuchcommand",), ("--version",), ("version",), ("-v",), ("--help",), ("help", "-a"), ("-h",), ("commit", "-h"), ("st",), ("ci", "-m", m), ("lg",),
-        ("rec",), ("sh-alias",), ("quoted", "x y"), ("count-objects",), ("gc", "-q"), ("fsck",), ("reflog", "-3"), ("worktree", "list"),
+        ("rec",), ("sh-alias",), ("cia", "-a", "-m", m), ("l12",), ("stc",), ("np",), ("-c", "core.abbrev=9", "l12"), ("quoted", "x y"), ("count-objects",), ("gc", "-q"), ("fsck",), ("reflog", "-3"), ("worktree", "list"),
         ("config", "user.name"), ("config", "--local", "x.y", "z%d" % step), ("update-index", "--refresh"), ("diff-tree", "-r", "HEAD"),
         ("grep", "line", "--", f), ("shortlog", "-s", "HEAD"), ("whatchanged", "-1"), ("apply", "--check", "/dev/null"), ("bisect", "log"),
         ("range-diff", "HEAD~1..HEAD", "HEAD~1..HEAD"), ("commit-tree", "HEAD^{tree}", "-m", "ct"), ("hash-object", f), ("check-ignore", f),
@@ -57,7 +57,8 @@ def templates(t, step):
 
 
 ALIASES = [("st", "status -s"), ("ci", "commit -q"), ("lg", "log --oneline -3"), ("rec", "st"), ("sh-alias", "!echo from-shell-alias"),
-           ("quoted", "log -1 --format='%s %an'"), ("loop1", "loop2"), ("loop2", "loop1")]
+           ("quoted", "log -1 --format='%s %an'"), ("loop1", "loop2"), ("loop2", "loop1"),
+           ("cia", "-c user.name=AliasAuthor ci"), ("l12", "-c core.abbrev=12 lg"), ("stc", "-C dir st"), ("np", "--no-pager lg")]
 NOCOMPARE_STDOUT = {"gc", "count-objects", "fsck"}
 
 
